@@ -58,10 +58,11 @@ theorem core_never_halts (cf : Core.Config) (args : List Int) (pr : Core.CProg) 
     (hwf : Core.wfProg pr = true) (hlen : args.length = pr.params.length)
     (fuel : Nat) (env' : Core.Env) (tr : List Ev) (res : Core.Res)
     (hex : Core.srcRun cf fuel args pr = some (env', tr, res))
-    (hck : res = .div0 → cf.checked = true)
+    (hck : res = .div0 ∨ res = .ovf → cf.checked = true)
+    (hpkF : res = .ovf → ∀ fd ∈ pr.funs, Core.pkS cf.w (Core.entryOff cf.w fd.params) fd.body < 256 ^ cf.w)
     (hroom : Core.pkS cf.w (Core.entryOff cf.w pr.params) pr.body ≤ Core.roomOf cf args) :
     C03_statement (Core.coreProg cf pr) (Core.coreInit cf args pr) :=
-  (Core.core_correct cf args pr hw hB hSE hwf hlen fuel env' tr res hex hck hroom).choose_spec.2
+  (Core.core_correct cf args pr hw hB hSE hwf hlen fuel env' tr res hex hck hpkF hroom).choose_spec.2
 
 /-- … and neither does a checked build whose stack is too small: it ends in `stack_overflow` -/
 theorem core_overflow_never_halts (cf : Core.Config) (args : List Int) (pr : Core.CProg)
